@@ -241,9 +241,13 @@ def run_impl(reqs, bg, chooser, lines=False, max_steps=6000, max_bg_loops=12):
     fx = Fixture(reqs, bg, lines)
     s = fx.sched
     trace = []
-    stalls = []      # (thread, where, received_by_other, holder_in_poll, req)
+    stalls = []      # (thread, where, received_by, woke_after_publication, req)
     problems = []    # (key, message)
     bg_loops = 0
+    pub_step = {}    # request -> step at which its result was published
+    wake_step = {}   # thread name -> step of its last completed blocking operation (poll / condition wait)
+    seen_stall = set()
+    lost_seen = False
     try:
         steps = 0
         while True:
@@ -260,27 +264,34 @@ def run_impl(reqs, bg, chooser, lines=False, max_steps=6000, max_bg_loops=12):
             bg_can = [c for c in th if c[0] is fx.bg]
             if bg_sleeping and bg_loops < max_bg_loops:
                 bg_can = [(fx.bg, "timeout")]
-            if not cl and not peer and (fx.bg is None or fx.bg.done or bg_sleeping):
-                # quiescent and nothing to come: whoever still waits sleeps through
+            if not cl and (fx.bg is None or fx.bg.done or bg_sleeping):
+                # no thread can take a step: only further traffic or a timeout can release whoever still waits
+                for name, t in fx.clients.items():
+                    if t.done:
+                        continue
+                    r = next((x for x in fx.reqs[name] if x not in fx.outcome), None)
+                    if r is not None and fx.is_ready(r) and (name, r) not in seen_stall:
+                        seen_stall.add((name, r))
+                        woke = wake_step.get(name, -1) > pub_step.get(r, 10 ** 9)
+                        holder = fx.conn._recvlock.owner if fx.white else None
+                        held = isinstance(holder, sim.SimThread) and holder is not t and not holder.done
+                        stalls.append((name, t.pending.kind, received_by(fx, r), woke, r, held))
                 frames_left, _ = sim.split_frames(fx.net.a.inbox)
-                if frames_left:
+                if frames_left and not lost_seen and not (fx.bg is not None and not fx.bg.done and
+                                                          fx.white and fx.conn._recvlock.owner is None):
+                    lost_seen = True
                     problems.append(("lost-wakeup", "a reply frame is available but every thread sleeps "
-                                     "(receive lock %s)" % fx.owner(fx.conn._recvlock) if fx.white else "?"))
+                                     "(receive lock %s)" % (fx.owner(fx.conn._recvlock) if fx.white else "?")))
+            if not cl and not peer and (fx.bg is None or fx.bg.done or bg_sleeping):
+                # ... and nothing is to come: the (30 s) timeouts run out
                 far = []
                 for name, t in fx.clients.items():
                     if t.done:
                         continue
                     r = next((x for x in fx.reqs[name] if x not in fx.outcome), None)
-                    where = t.pending.kind
-                    if r is not None and fx.is_ready(r):
-                        rb = received_by(fx, r)
-                        holder = fx.conn._recvlock.owner if fx.white else None
-                        hp = isinstance(holder, sim.SimThread) and holder is not t and not holder.done and \
-                            holder.pending.kind == "poll"
-                        stalls.append((name, where, rb, hp, r))
-                    elif r is not None:
+                    if r is not None and not fx.is_ready(r):
                         problems.append(("hang", "%s waits for %s whose reply was never processed although nothing is "
-                                         "outstanding (blocked in %s)" % (name, r, where)))
+                                         "outstanding (blocked in %s)" % (name, r, t.pending.kind)))
                     if t.pending.deadline is not None:
                         far.append(t.pending.deadline)
                 if not far:
@@ -290,6 +301,9 @@ def run_impl(reqs, bg, chooser, lines=False, max_steps=6000, max_bg_loops=12):
                 s.now = max(s.now, min(far))
                 trace.append({"t": "env", "op": "stall_timeout"})
                 continue
+            if not cl and not bg_can and not peer:
+                problems.append(("deadlock", "nobody can act"))
+                break
             choices = cl + bg_can + [(Env("peer", 1000 + i, (r, seq)), "go") for i, (r, seq) in enumerate(peer)]
             c = chooser(choices, s)
             if isinstance(c[0], Env):
@@ -302,7 +316,14 @@ def run_impl(reqs, bg, chooser, lines=False, max_steps=6000, max_bg_loops=12):
             if kind == "sleep":
                 bg_loops += 1
                 s.now = max(s.now, t.pending.deadline)
+            op_obj = t.pending.obj
             s.step(t, wake)
+            if kind == "set_ready":
+                for tn, lst in fx.created.items():
+                    if op_obj in lst and tn in fx.reqs and lst.index(op_obj) < len(fx.reqs[tn]):
+                        pub_step[fx.reqs[tn][lst.index(op_obj)]] = steps
+            elif kind in ("poll", "cond_blocked"):
+                wake_step[t.name] = steps
             if kind == "line":
                 continue
             ev = {"t": t.name, "op": kind, "wake": wake}
@@ -350,15 +371,15 @@ def judge(res, reqs):
     if len(set(res["seqs"])) != len(res["seqs"]):
         c13.append(("seq-reuse", "sequence numbers reused: %s" % (res["seqs"],)))
     c14 = []
-    for (t, where, rb, holder_in_poll, r) in res["stalls"]:
-        if rb is not None and rb != t and where == "poll":
-            key = "stall:handoff:poll"
-        elif rb is not None and rb != t and where == "cond_blocked" and holder_in_poll:
-            key = "stall:handoff:cond"
+    for (t, where, rb, woke, r, held) in res["stalls"]:
+        w = {"poll": "poll", "cond_blocked": "cond"}.get(where, where)
+        if rb is not None and rb != t and not woke and (w == "poll" or (w == "cond" and held)):
+            key = "stall:handoff:" + w
         else:
-            key = "stall:%s:%s" % ("own" if rb == t else "other", where)
-        c14.append((key, "waiter %s sleeps in %s until its timeout although the reply to %s was already processed "
-                    "(frame received by %s)" % (t, where, r, rb)))
+            key = "stall:%s:%s" % ("own" if rb == t else ("woke" if woke else "other"), w)
+        c14.append((key, "waiter %s sleeps in %s (until further traffic or its timeout) although the reply to %s was already "
+                    "processed (frame received by %s; waiter woke from a blocking call after the publication: %s; receive lock "
+                    "held by another thread: %s)" % (t, where, r, rb, woke, held)))
     return c13, c14
 
 
@@ -395,6 +416,26 @@ def random_chooser(rng, stick):
             i = rng.randrange(len(ch))
         choose.record.append(i)
         return ch[i]
+    choose.record = []
+    return choose
+
+
+def pct_chooser(rng, depth=3, horizon=400):
+    """PCT-style: random thread priorities, the highest-priority choice runs; `depth` random priority change points"""
+    prio = {}
+    changes = set(rng.sample(range(horizon), depth))
+
+    def choose(choices, s):
+        ch = sim._order(s, choices)
+        k = len(choose.record)
+        for c in ch:
+            if c[0].name not in prio:
+                prio[c[0].name] = rng.random()
+        if k in changes:
+            prio[ch[0][0].name] = -rng.random()      # demote whoever would run now
+        best = max(range(len(ch)), key=lambda i: (prio[ch[i][0].name], -i))
+        choose.record.append(best)
+        return ch[best]
     choose.record = []
     return choose
 
@@ -462,6 +503,7 @@ def replay_graph(chk, cfgname, max_paths, on_problem):
     for pi, path in enumerate(paths):
         fx = Fixture(cfg["reqs"], cfg["bg"])
         s = fx.sched
+        bg_budget = [40]
         try:
             cur = path[0]
             ok = True
@@ -508,20 +550,60 @@ def replay_graph(chk, cfgname, max_paths, on_problem):
                     chk.drift.append("serve path %d step %s: %r" % (pi, label, ex))
                     break
                 chk.evaluated()
-                mism = compare(fx, s1)
+                mism = compare(fx, s1) if ok else None
                 if mism:
                     ok = False
                     chk.drift.append("serve path %d after %s: %s" % (pi, label, mism))
-                    break
-                covered.add((cur, label, dst))
-                chk.distinct(("edge", cfgname, cur, label, dst))
+                if ok:
+                    covered.add((cur, label, dst))
+                    chk.distinct(("edge", cfgname, cur, label, dst))
                 cur = dst
             if ok:
                 chk.validated()
             if pi < 1:
                 chk.sample({"kind": "TLC path replayed into the code", "config": cfgname,
                             "steps": [lab for lab, _ in path[1:]][:80]})
-            # whatever the replay produced must still be right
+            # the schedule prefix is completed (peer answers everything, no further preemption) and judged
+            try:
+                for _ in range(3000):
+                    if all(t.done for t in fx.clients.values()):
+                        break
+                    th = [c for c in thread_choices(s) if c[0] is not fx.bg]
+                    if th:
+                        s.step(*sim._order(s, th)[0])
+                        continue
+                    pc_ = fx.peer_choices()
+                    if pc_:
+                        fx.peer_reply(*pc_[0])
+                        continue
+                    if fx.bg is not None and not fx.bg.done and (bg_budget[0] > 0 or fx.bg.pending.kind != "sleep"):
+                        b = fx.bg
+                        if b.pending.kind == "sleep":
+                            bg_budget[0] -= 1
+                        if b.pending.is_enabled():
+                            s.step(b, "go")
+                        elif b.pending.deadline is not None:
+                            s.now = max(s.now, b.pending.deadline)
+                            s.step(b, "timeout")
+                        continue
+                    dl = [t.pending.deadline for t in fx.clients.values() if not t.done and t.pending.deadline is not None]
+                    if not dl:
+                        on_problem("deadlock", "threads blocked forever after a TLC path (%s)" % [
+                            (n, repr(t.pending)) for n, t in fx.clients.items() if not t.done],
+                            {"mode": "tlc-path", "config": cfgname, "labels": [lab for lab, _ in path[1:]]})
+                        break
+                    s.now = max(s.now, min(dl))
+            except sim.Deadlock as ex:
+                on_problem("deadlock", "%s (after a TLC path)" % ex, {"mode": "tlc-path", "config": cfgname,
+                                                                      "labels": [lab for lab, _ in path[1:]]})
+            for rr in [x for t_ in fx.reqs.values() for x in t_]:
+                if rr not in fx.outcome and all(t.done for t in fx.clients.values()):
+                    on_problem("incomplete", "request %s never completed (TLC path replay)" % rr,
+                               {"mode": "tlc-path", "config": cfgname, "labels": [lab for lab, _ in path[1:]]})
+            for seq_, n_ in fx.dispatch_count.items():
+                if n_ != 1:
+                    on_problem("dispatch-count", "incoming frame with seq %s dispatched %d times (TLC path replay)" % (seq_, n_),
+                               {"mode": "tlc-path", "config": cfgname, "labels": [lab for lab, _ in path[1:]]})
             for r, o in fx.outcome.items():
                 if o[0] == "ok" and o[1] != tag(r):
                     on_problem("crossed", "request %s completed with reply %r (TLC path replay)" % (r, o[1]),
@@ -571,7 +653,10 @@ def explore(chk, cfgname, n_random, dfs_runs, dfs_bound, lines, on_result):
     traces = []
     n = 0
     for i in range(n_random):
-        ch = random_chooser(random.Random(rnd.random()), rnd.choice([0.0, 0.5, 0.85]))
+        if i % 3 == 2:
+            ch = pct_chooser(random.Random(rnd.random()), depth=rnd.choice([1, 2, 3]), horizon=rnd.choice([60, 150, 400]))
+        else:
+            ch = random_chooser(random.Random(rnd.random()), rnd.choice([0.0, 0.5, 0.85, 0.97]))
         res = run_impl(cfg["reqs"], cfg["bg"], ch, lines=lines)
         on_result(res, cfg, {"mode": "indices", "config": cfgname, "lines": lines, "indices": ch.record})
         traces.append(res["trace"])
